@@ -255,7 +255,7 @@ def readPcd (s : IS) : IS :=
     let (s2, c2) := match s1.get with | (s', some c') => (s', c') | (s', none) => (s', c1)
     if c2 = 70 || c2 = 78 then
       let (s3, c3) := match s2.get with | (s', some c') => (s', c') | (s', none) => (s', c2)
-      if c3 = chBackslash then (s3.get).1 else s3
+      s3      -- (whether or not `c3` closes the directive: nothing more is read — shape checked by the extractor)
     else s2
   else s1
 
